@@ -30,6 +30,7 @@ type TemplateDef struct {
 	Mem          string                   `json:"mem,omitempty"`      // memory request of container main, spelled as given ("128Mi" / "134217728")
 	NoLabels     bool                     `json:"noLabels,omitempty"` // the template carries no labels at all
 	Checksum     string                   `json:"checksum,omitempty"` // pod annotation checksum/config: a template that differs from its twin in metadata only ("X^")
+	ForeignOwner bool                     `json:"foreignOwner,omitempty"` // the template was written from the YAML of a pod of the DaemonSet being replaced: it carries that pod's controller owner reference
 	PastedHash   bool                     `json:"pastedHash,omitempty"` // the template was written from the YAML of a running pod: it carries a (stale) template-hash annotation
 	Labels       map[string]string        `json:"labels,omitempty"`
 	Namespace    string                   `json:"namespace,omitempty"` // spec.template.metadata.namespace (normally empty)
@@ -130,8 +131,12 @@ func (t *TemplateDef) Spec() corev1.PodTemplateSpec {
 		}
 		anns[edsv1.MD5ExtendedDaemonSetAnnotationKey] = "0123456789abcdef0123456789abcdef"
 	}
+	var owners []metav1.OwnerReference
+	if t.ForeignOwner {
+		owners = []metav1.OwnerReference{{APIVersion: "apps/v1", Kind: "DaemonSet", Name: "old-agent", UID: "uid-old-agent", Controller: bptr(true)}}
+	}
 	return corev1.PodTemplateSpec{
-		ObjectMeta: metav1.ObjectMeta{Labels: lbls, Annotations: anns, Namespace: t.Namespace},
+		ObjectMeta: metav1.ObjectMeta{Labels: lbls, Annotations: anns, Namespace: t.Namespace, OwnerReferences: owners},
 		Spec: corev1.PodSpec{
 			Containers:   cs,
 			NodeSelector: t.NodeSelector,
